@@ -2,7 +2,7 @@
  *
  * job lines:
  *   a <blob|->   b <blob>          state: old file (or none) and new file
- *   case init=<blob|-> limit=<n> style=<0|1> piece=<n> plan=<k:F:errno|k:S:count|k:K:bytes,...> trace=<0|1>
+ *   case init=<blob|-> limit=<n> style=<0|1> piece=<n> [abort=<body bytes of the first chunk response after which the connection drops>] plan=<k:F:errno|k:S:count|k:K:bytes,...> trace=<0|1>
  * the target starts with the bytes of init; a plan that contains a kill makes the scenario run in a child of its own
  * which dies at that point - the target is then reported as the kill left it.
  * output: U <idx> status= scan= copy= end= missing= failed= atscan= body= reqs=<h|c>:<ranges>;... killed=<0|1> mismatch=<plan mismatch>
@@ -13,7 +13,7 @@
 #include <sys/wait.h>
 #include <sys/mman.h>
 
-typedef struct { blob *a, *b; blob init; int limit, style, piece, trace; deviation plan[8]; int nplan; } ucase;
+typedef struct { blob *a, *b; blob init; int limit, style, piece, trace; deviation plan[8]; int nplan; long abort_at; } ucase;
 typedef struct { ucase *cases; int n; } uctx;
 
 int parse_plan(const char *s, deviation *d, int max) {
@@ -37,7 +37,7 @@ static void run_one(int idx, FILE *out, void *vctx) {
     uctx *c = vctx;
     ucase *k = &c->cases[idx];
     int tfd = tmp_file_with("ut", k->init.p, k->init.n);
-    upd_cfg cfg = {k->a, k->b, k->limit, k->style, k->piece};
+    upd_cfg cfg = {k->a, k->b, k->limit, k->style, k->piece, k->abort_at};
     bool kill = false;
     for(int i = 0; i < k->nplan; i++) if(k->plan[i].kind == DEV_KILL) kill = true;
     upd_res *res = mmap(NULL, sizeof *res, PROT_READ | PROT_WRITE, MAP_SHARED | MAP_ANONYMOUS, -1, 0);
@@ -112,6 +112,7 @@ int cmd_update(FILE *job, FILE *out) {
             k.style = (int)kvi(t, n, "style", 0);
             k.piece = (int)kvi(t, n, "piece", 0);
             k.trace = (int)kvi(t, n, "trace", 0);
+            k.abort_at = kvi(t, n, "abort", -1);
             k.nplan = parse_plan(kv(t, n, "plan", "-"), k.plan, 8);
             c.cases[c.n++] = k;
         } else die("update: bad line %s", t[0]);
